@@ -3,11 +3,12 @@
 Two layers: the functional model (areas/tree.py: colour rules, height bound)
 and the link-level model (areas/treel.py: the fix-up loops navigating through
 parent links refine the functional model; every child's parent link proved)."""
-from areas import tree, treel
+from areas import tree, treel, treel_tie
 
 
 def run(chk):
     treel.link_level_run(chk)
+    treel_tie.tie2_run(chk)
     return tree.run_check(chk, "C02")
 
 
